@@ -130,7 +130,8 @@ func genC04Proto(seed uint64, tier string) Scenario {
 				} else {
 					s.Scripts[cid] = genScript(g, func() int { return 0 })
 				}
-				text = callFrame(method, params, more, oneway, false, g)
+				// (where a call is routed to does not depend on its flags)
+				text = callFrame(method, params, more, oneway, g.Pct(10), g)
 			}
 			cs.Frames = append(cs.Frames, FrameSpec{Cid: cid, Text: text})
 		}
